@@ -372,7 +372,8 @@ func generateBreadcrumbs(folderID string, structure *FolderStructure) []Breadcru
 	breadcrumbs := make([]Breadcrumb, 0)
 	currentID := folderID
 
-	for currentID != "" {
+	// a chain of parents is never longer than the number of items: stop if the structure holds a cycle
+	for steps := 0; currentID != "" && steps <= len(structure.Items); steps++ {
 		item, exists := structure.Items[currentID]
 		if !exists {
 			break
@@ -598,7 +599,7 @@ func listItems(req *ListItemsRequest, myid int64) (*ListItemsResponse, error) {
 	getFullPath := func(itemID string) string {
 		path := []string{}
 		currentID := itemID
-		for currentID != "" && currentID != rootFolderID {
+		for steps := 0; currentID != "" && currentID != rootFolderID && steps <= len(structure.Items); steps++ {
 			if item, exists := structure.Items[currentID]; exists {
 				path = append([]string{item.Name}, path...)
 				currentID = item.ParentID
